@@ -1,6 +1,6 @@
 (* IsoProofsExamples.v -- C06: non-vacuity of the hypotheses, whole-document instances computed with the concrete
-   primitives (the specification encrypts, the model of lopdf decrypts, and the other way round), and the
-   witnesses of the three open known-finding classes. *)
+   primitives (the specification encrypts, the model of lopdf decrypts, and the other way round), and instances of
+   the three repaired finding classes (EFF, DecodeParms arrays, direct encryption dictionary). *)
 From LV Require Import Base.Bytes Base.Sx Model.Obj Model.DocQ Gen.Crypto
   Model.Crypto.Word Model.Crypto.MD5 Model.Crypto.RC4 Model.Crypto.PKCS5 Model.Crypto.Handler Model.Crypto.Concrete
   Spec.Crypto.Iso Spec.Crypto.IsoConcrete
@@ -38,7 +38,7 @@ Definition ex_ip : iparams :=
 Definition ex_st : estate :=
   {| es_version := 4; es_revision := 4; es_key_length := Some 128; es_encrypt_metadata := false;
      es_crypt_filters := [(KP, CF_Identity); (KS, CF_AESV2)];      (* BTreeMap order *)
-     es_key := zeros 16; es_stmf := KS; es_strf := N_Identity; es_O := zeros 32; es_OE := []; es_U := zeros 32;
+     es_key := zeros 16; es_stmf := KS; es_strf := N_Identity; es_eff := None; es_O := zeros 32; es_OE := []; es_U := zeros 32;
      es_UE := []; es_perms := perms_of_Z (-1340); es_perms_enc := [] |}.
 
 Lemma ex_sorted : bt_insert (bt_insert [] KS CF_AESV2) KP CF_Identity = es_crypt_filters ex_st.
@@ -58,6 +58,7 @@ Proof.
   - intros _. exact ex_cf_agree.
   - intros _. split; [reflexivity|]. right. vm_compute. discriminate.
   - intros _. split; [reflexivity|]. left. reflexivity.
+  - intros _. split; [reflexivity|discriminate].
   - intro n. unfold resolve. destruct (bytes_eqb n iN_Identity); [exact Logic.I|].
     cbn [ip_CF ex_ip cf_lookup].
     destruct (bytes_eqb KS n); [cbn; lia|]. destruct (bytes_eqb KP n); exact Logic.I.
@@ -118,28 +119,58 @@ Example empty_password_rejected_v2 :
   match open_document iconcrete ex_enc_v2 [] with WrongPassword => true | _ => false end = true.
 Proof. vm_compute. reflexivity. Qed.
 
-(* ---------- witnesses of the open known-finding classes (on the model of lopdf as it is) ---------- *)
-(* EFF: with an EFF entry naming another filter, an embedded file stream gets StmF's method from lopdf *)
+(* ---------- the three former known-finding classes, now fixed in /repo (0fbc00d, f8740d3, fbda92c): instances on the
+   model of the repaired code ---------- *)
+(* EFF: with an EFF entry naming another filter, an embedded file stream gets that filter's method *)
 Definition ex_ip_eff : iparams :=
   {| ip_V := 4; ip_R := 4; ip_Length := 128; ip_O := zeros 32; ip_U := zeros 32; ip_OE := []; ip_UE := []; ip_Perms := [];
      ip_P := -1340; ip_EncryptMetadata := false; ip_CF := [(KS, ICF_AESV2); (KP, ICF_None)];
      ip_StmF := KS; ip_StrF := iN_Identity; ip_EFF := Some KP |}.
-Lemma eff_class_witness :
-  stream_cf ex_st (OStream [(bs "Type", OName (bs "EmbeddedFile"))] []) = CF_AESV2 /\
-  stream_method ex_ip_eff [(bs "Type", OName (bs "EmbeddedFile"))] = M_Identity.
-Proof. split; vm_compute; reflexivity. Qed.
+Definition ex_st_eff : estate :=
+  {| es_version := 4; es_revision := 4; es_key_length := Some 128; es_encrypt_metadata := false;
+     es_crypt_filters := [(KP, CF_Identity); (KS, CF_AESV2)];
+     es_key := zeros 16; es_stmf := KS; es_strf := N_Identity; es_eff := Some KP; es_O := zeros 32; es_OE := []; es_U := zeros 32;
+     es_UE := []; es_perms := perms_of_Z (-1340); es_perms_enc := [] |}.
+Lemma ex_state_matches_eff : state_matches ex_st_eff ex_ip_eff (zeros 16).
+Proof.
+  constructor; try reflexivity; try discriminate.
+  - cbn; lia.
+  - intros _. exact ex_cf_agree.
+  - intros _. split; [reflexivity|]. right. vm_compute. discriminate.
+  - intros _. split; [reflexivity|]. left. reflexivity.
+  - intros _. split; [reflexivity|]. intros e He. inversion He; subst e. right. vm_compute. discriminate.
+  - intro n. unfold resolve. destruct (bytes_eqb n iN_Identity); [exact Logic.I|].
+    cbn [ip_CF ex_ip_eff cf_lookup].
+    destruct (bytes_eqb KS n); [cbn; lia|]. destruct (bytes_eqb KP n); exact Logic.I.
+Qed.
+Lemma eff_example :
+  stream_cf ex_st_eff (OStream [(bs "Type", OName (bs "EmbeddedFile"))] []) = CF_Identity /\
+  stream_method ex_ip_eff [(bs "Type", OName (bs "EmbeddedFile"))] = M_Identity /\
+  stream_cf ex_st_eff (OStream [] []) = CF_AESV2.
+Proof. repeat split; vm_compute; reflexivity. Qed.
 
-(* DecodeParms given as the array parallel to Filter: lopdf does not find the Name *)
+(* DecodeParms given as the array parallel to Filter: the Name is found at the position of Crypt *)
 Definition ex_sd_dparr : dict :=
-  [(bs "Filter", OArr [OName (bs "Crypt"); OName (bs "ASCIIHexDecode")]);
-   (bs "DecodeParms", OArr [ODict [(bs "Name", OName KS)]; ONull])].
-Lemma decodeparms_array_class_witness :
-  stream_cf ex_st (OStream ex_sd_dparr []) = CF_Identity /\ stream_method ex_ip ex_sd_dparr = M_AESV2.
-Proof. split; vm_compute; reflexivity. Qed.
+  [(bs "Filter", OArr [OName (bs "ASCIIHexDecode"); OName (bs "Crypt")]);
+   (bs "DecodeParms", OArr [ONull; ODict [(bs "Name", OName KP)]])].
+Lemma decodeparms_array_example :
+  stream_cf ex_st (OStream ex_sd_dparr []) = CF_Identity /\ stream_method ex_ip ex_sd_dparr = M_Identity /\
+  stream_ok ex_ip ex_sd_dparr.
+Proof.
+  repeat split; try (vm_compute; reflexivity).
+  - cbn. repeat constructor.
+  - discriminate.
+Qed.
 
-(* the encryption dictionary as a direct object of the trailer: the standard's reader finds it, lopdf does not *)
+(* the encryption dictionary as a direct object of the trailer: the standard's writer puts it there, lopdf's model
+   recognises it and opens the document *)
 Definition ex_doc_direct : doc := encrypt_document iconcrete ex_rq_v2 None [] [] ex_doc.
-Lemma direct_encrypt_class_witness :
-  is_encrypted ex_doc_direct = false /\
-  match find_encrypt ex_doc_direct with Some (None, _) => true | _ => false end = true.
-Proof. split; vm_compute; reflexivity. Qed.
+Lemma direct_encrypt_example :
+  is_encrypted ex_doc_direct = true /\
+  match find_encrypt ex_doc_direct with Some (None, _) => true | _ => false end = true /\
+  match doc_decrypt concrete ex_doc_direct (bs "user") with
+  | DOk d' _ => bytes_eqb (sx_print (objmap_to_sx (d_objects d'))) (sx_print (objmap_to_sx (d_objects ex_doc)))
+                && match dict_get (d_trailer d') K_Encrypt with None => true | _ => false end
+  | _ => false
+  end = true.
+Proof. repeat split; vm_compute; reflexivity. Qed.
